@@ -134,6 +134,10 @@ class BatchProcessor:
         # Remove padding if needed
         if self.n_pad > 0:
             return results[: -self.n_pad]
+        if len(results.sharding.device_set) > 1:
+            # Without padding to slice off, the reshaped pmap output stays sharded
+            # across devices and cannot be passed back to pmap as a broadcast argument
+            results = jax.device_put(results, jax.local_devices()[0])
         return results
 
     @property
